@@ -29,7 +29,7 @@ CONSTANTS N,        \* capacity
           MaxScript,\* longest next / next_back script on a view
           Families  \* which operation families Next offers (subset of AllFamilies)
 
-AllFamilies == {"single", "positional", "bulk", "fill", "extend", "access", "iter", "drain", "ctor", "faults", "io", "conv"}
+AllFamilies == {"single", "positional", "bulk", "fill", "extend", "access", "iter", "drain", "ctor", "faults", "io", "conv", "provided"}
 \* the conversion family (clone, clone_from, to_vec, into_iter) starts from pairs of buffers
 Conv == "conv" \in Families
 \* the byte-stream family runs on buffers of plain bytes (Copy, no destructor): exclusive
@@ -48,7 +48,7 @@ vars == <<start, size, slots, S, ev, fails, nid, view, hist, lay0, ncalls>>
 
 Junk == -1
 NoView == [on |-> FALSE, kind |-> "", buf_size |-> 0, rs |-> 0, re |-> 0, is |-> 0, ie |-> 0, right |-> <<>>, left |-> <<>>,
-           short |-> FALSE, lens |-> FALSE, steps |-> 0, maxsteps |-> 0, byval |-> FALSE]
+           short |-> FALSE, lens |-> FALSE, steps |-> 0, maxsteps |-> 0, byval |-> FALSE, nth |-> FALSE]
 
 \* how the view will be exercised: canonical range forms get every interleaving of next / next_back
 \* (up to one call past exhaustion), with len() after every step or never; other forms are only
@@ -663,6 +663,30 @@ NextViewNew ==
 ViewObs(e) == IF view.kind \in {"drain", "iter_mut", "into"} THEN NoObs ELSE Obs(start, size, slots, S, e)
 IntoH(e) == IF view.kind = "into" THEN [e EXCEPT !.h = -1] ELSE e
 
+\* one next() / next_back() on the running record: [r, vw, id (0: nothing left), at (slot index, borrowing views)]
+ViewTake(r, vw, back) ==
+    IF vw.kind = "into"
+    THEN LET rr == IF back THEN PopBackR(r) ELSE PopFrontR(r) IN [r |-> rr, vw |-> vw, id |-> rr.last, at |-> -1]
+    ELSE IF vw.kind = "drain"
+    THEN LET has == vw.is < vw.ie
+             idx == IF back THEN vw.ie - 1 ELSE vw.is IN
+         [r |-> r, vw |-> IF ~has THEN vw ELSE IF back THEN [vw EXCEPT !.ie = @ - 1] ELSE [vw EXCEPT !.is = @ + 1],
+          id |-> IF has THEN r.slots[AddMod(r.start, idx, N)] ELSE 0, at |-> -1]
+    ELSE LET fromRight == IF back THEN vw.left = <<>> ELSE vw.right # <<>>
+             src == IF fromRight THEN vw.right ELSE vw.left
+             has == src # <<>>
+             ix == IF ~has THEN 0 ELSE IF back THEN src[Len(src)] ELSE src[1]
+             rest == IF ~has THEN src ELSE IF back THEN Take(src, Len(src) - 1) ELSE Tail(src) IN
+         [r |-> r, vw |-> IF fromRight THEN [vw EXCEPT !.right = rest] ELSE [vw EXCEPT !.left = rest],
+          id |-> IF has THEN r.slots[ix] ELSE 0, at |-> ix]
+\* nth(k) / nth_back(k), provided methods: next() k times, each result dropped at once, then next()
+RECURSIVE NthLoop(_, _, _, _)
+NthLoop(r, vw, back, k) ==
+    LET t == ViewTake(r, vw, back) IN
+    IF t.id = 0 THEN [r |-> [t.r EXCEPT !.ret = RetK("none")], vw |-> t.vw]
+    ELSE IF k = 0 THEN [r |-> [t.r EXCEPT !.ret = IF t.at >= 0 THEN RetIdAt("some", t.id, t.at) ELSE RetId("some", t.id)], vw |-> t.vw]
+    ELSE NthLoop(IF vw.kind \in {"drain", "into"} THEN DropOne(t.r, t.id, NoFault) ELSE t.r, t.vw, back, k - 1)
+
 NextViewStep ==
     /\ view.on /\ fails = {}
     /\ \/ \E back \in {FALSE, TRUE} :
@@ -710,6 +734,13 @@ NextViewStep ==
             /\ (f.k = "none" \/ r.fired) /\ ~LenDue
             /\ view' = NoView
             /\ Commit([e EXCEPT !.post = IF view.kind = "into" THEN NoObs ELSE Obs(r.start, r.size, r.slots, S, e), !.fk = f.k, !.fn = f.n], r)
+       \/ \E back \in {FALSE, TRUE}, k \in 0..2 :    \* nth / nth_back as the first or second step; the script then ends soon
+            LET res == NthLoop(Rnow, view, back, k)
+                e == IntoH([ViewEv(IF back THEN "v_nth_back" ELSE "v_nth", res.r, Ev0) EXCEPT !.i = k]) IN
+            /\ "provided" \in Families
+            /\ ~view.short /\ ~LenDue /\ ~view.byval /\ ~view.nth /\ view.steps <= 1 /\ view.steps < view.maxsteps
+            /\ view' = [res.vw EXCEPT !.nth = TRUE, !.steps = @ + 1, !.maxsteps = Min(@, view.steps + 2)]
+            /\ Commit([e EXCEPT !.post = ViewObs(e)], res.r)
        \/ \E back \in {FALSE, TRUE} :       \* fold / rfold (provided methods that take the view by value): everything
             \* that is left is handed over in order, nothing is destroyed; the view is then dropped by the same call
             \* (recorded as the v_drop that follows)
@@ -722,10 +753,11 @@ NextViewStep ==
                       ELSE Rnow
                 r == [r0 EXCEPT !.ret = [RetK("ids") EXCEPT !.ids = IF back THEN Rev(win) ELSE win, !.slots = IF back THEN Rev(at) ELSE at]]
                 e == IntoH([ViewEv("v_rest", r, Ev0) EXCEPT !.acc = IF back THEN "rfold" ELSE "fold", !.i = IF back THEN 1 ELSE 0, !.allocs = -1]) IN
-            /\ ~LenDue /\ ~view.byval /\ ~view.short
+            /\ "provided" \in Families
+            /\ ~LenDue /\ ~view.byval /\ ~view.short /\ ~view.nth
             /\ view' = [view EXCEPT !.byval = TRUE, !.lens = FALSE, !.is = view.ie, !.right = <<>>, !.left = <<>>]
             /\ Commit(e, r)
-       \/ /\ view.kind = "drain" /\ ~LenDue /\ ~view.short /\ ~view.byval
+       \/ /\ view.kind = "drain" /\ ~LenDue /\ ~view.short /\ ~view.byval /\ ~view.nth
           /\ LET r == Rnow  e == ViewEv("v_forget", r, Ev0) IN
              /\ view' = NoView
              /\ Commit([e EXCEPT !.post = Obs(start, size, slots, S, e)], r)
